@@ -10,6 +10,7 @@ TOL = 1e-11
 
 
 def check(run, cases=None):
+    cases_given = cases
     cases = cases if cases is not None else EC.gen_cases(run.tier, run.seed + 1)
     pairs = EC.evaluate(cases, 0, 'MC_C02', run)
     run.rule = ('lattice edge cases as in C01 (different seed stream) x information catalogue {I, diag, 3 SPD with cross terms, ill-conditioned, '
@@ -100,6 +101,11 @@ def check(run, cases=None):
         if len(batch) == 7:
             _graph_sum(run, batch)
             batch = []
+    if cases_given is None:
+        # histories: error and chi^2 are those of the CURRENT poses / measurements / information also after optimizer runs and the user's edits
+        from .. import scenario
+        scenario.histories(run, ['se2', 'se3', 'r2', 'r3', 'mixed', 'se3reg', 'se2c', 'se3c', 'se2weighted'], 60 if run.tier == 'thorough' else 8, 14,
+                           lambda cl, ev: cl == 'query-fresh' and ev.get('q') in ('calc_chi2', 'edge_chi2', 'edge_error'))
     optimized_mode(run)
     run.notes['tolerance'] = 'error: abs dev <= %g*4*S; chi2: abs dev <= %g*40*max|W|*(S+4)^2, S = largest translation magnitude' % (TOL, TOL)
     run.assumptions = ['inputs restricted to the rational lattice (DESIGN.md L1)', 'math.atan2 for the SE(2) angle atom']
